@@ -22,6 +22,6 @@ NOT_COVERED = ["the whole-run statement 'the inputs passed to a step at t are ex
 LEVEL_TEXT = "Contracts on the real get_output_for (newest entry not newer than t, {} if none), TimedInputBuffer.get_input (exactly the buffered values due at or before t, each removed once, later ones kept), prune_dataflow_cache (every future pull of every consumer is answered as before -- the retention clause taken from the property), the data clauses of get_outputs (cached under the output time, pushed with the connection's delay) and connect_one (pulled iff persistent and cached, else pushed; initial data placement; minimum delay); get_input_data by a bounded stand-in. End to end (BOUNDED, not a proof): the (time, inputs) sequences of real runs of the ungrouped scenarios of the harness (count in coverage.bounded[].bound) equal those of a sequential reference semantics written from the statements of C02/C03. TimedInputBuffer over sequences of add / get_input and entity creation by BOUNDED stand-ins."
 DESIGN_REF = "DESIGN.md section 8 (C03)"
 LEVEL_NOTE = 'Proved per function for arbitrary cache / buffer contents and any number of simulators; the merging primitives merge_all / merge_existing proved, their composition in get_input_data only bounded. Trusted: pyvc encoder, cache order assumption, z3/cvc5. Fixed through this check: F4 (c11a443), F5 (2fee19a).'
-TECHNIQUE = 'contract-based deductive verification (AST->z3 VCs on get_output_for, TimedInputBuffer.get_input, prune_dataflow_cache, get_outputs, connect_one, merge_all, merge_existing, World.connect); get_input_data's composition by a bounded stand-in'
+TECHNIQUE = 'contract-based deductive verification (AST->z3 VCs on get_output_for, TimedInputBuffer.get_input, prune_dataflow_cache, get_outputs, connect_one, merge_all, merge_existing, World.connect); the composition in get_input_data by a bounded stand-in'
 CLAIMED = True
 NA_REASON = ""
